@@ -25,7 +25,7 @@ PROP = "C03"
 
 EVIDENCE = {
     "rule": "one evaluation = one simulated call history of one constitutive object (material-point machine: 6..24 trial/commit/reject operations on a batch of material points; or one FE job with the monitoring wrapper between body and material); non-trivial = at least one derivative probe at a state with non-zero committed state variables, or a reused dirty out= buffer, or a rejected trial followed by a commit; distinct = distinct (model, operation sequence shape, probe outcome classes)",
-    "probes_expected": ["fd-hessian-probe", "fd-gradient-probe", "probe-at-stored-state", "reject-then-commit", "out-buffer-dirty", "mixed-block-probe", "kink-discarded", "job-umat-call-monitored", "plastic-loading-point", "unloading-point", "hessian-first-at-new-state"],
+    "probes_expected": ["fd-hessian-probe", "fd-gradient-probe", "probe-at-stored-state", "reject-then-commit", "out-buffer-dirty", "mixed-block-probe", "kink-discarded", "job-umat-call-monitored", "plastic-loading-point", "unloading-point", "hessian-first-at-new-state", "poisoned-call-in-between"],
     "clauses_sampled_only": ["for stateless hyperelastic models evaluated without out= the derivative check is sampling of deformation gradients (pure function); only the call protocol (idempotence, inputs untouched, buffer reuse) is history"],
     "components": {
         "real": ["felupe.constitution (hand-coded, tensortrax, composite, mixed wrappers, small-strain framework)", "tensortrax", "numpy"],
@@ -424,6 +424,17 @@ def run_point(doc, log):
             x = [F, pbuf, Jbuf, sv]
         else:
             x = [F, sv]
+        if k % 4 == 2:
+            # a failed / non-finite evaluation in between (diverged iterate): it must leave nothing
+            # behind in the object that a later evaluation could pick up
+            bad = [np.array(a, copy=True) for a in x]
+            bad[0][...] = np.nan
+            for kind_ in ("gradient", "hessian"):
+                try:
+                    getattr(umat, kind_)(bad)
+                except Exception:
+                    pass
+            log.count("poisoned-call-in-between")
         if k % 3 == 1 and not model.startswith("JAX:"):
             # the elasticity requested first at a new state (no stress evaluation in between)
             h_first = [None if a is None else np.array(a, copy=True) for a in umat.hessian(x)]
